@@ -1,0 +1,351 @@
+// apparmor.d - Full set of apparmor profiles
+// SPDX-License-Identifier: GPL-2.0-only
+
+//go:build verif
+
+// Machine-checked contracts for the log-to-rule conversion (property C16).
+// Comment-only; see contracts_verif.go.
+package aa
+
+//@ func Must
+//@   opt prop=C16
+//@   inline
+
+// tokenToSlice is used as a deterministic function of its argument; its body (strings.Trim,
+// strings.Split) is not verified.
+//@ func tokenToSlice
+//@   opt prop=C16
+//@   pure
+//@   trusted
+
+//@ func newQualifierFromLog
+//@   opt prop=C16
+//@   assigns nothing
+//@   ensures result.Audit == (log["apparmor"] == "AUDIT") && result.AccessType == ""
+
+//@ func newBaseFromLog
+//@   opt prop=C16
+//@   assigns nothing
+
+//@ func IsOwner
+//@   opt prop=C16
+//@   assigns nothing
+//@   ensures imp(result, has(log, "fsuid") && has(log, "ouid") && log["fsuid"] == log["ouid"])
+
+// toValues: every accepted value is in the requirement table of (kind, key), and every
+// non-empty trimmed token of the input is in the result (so nothing recorded is dropped).
+//@ func toValues
+//@   opt prop=C16
+//@   pure
+//@   loop 1 invariant forall_str(x, imp(mem(res, x), mem(req, x)))
+//@   loop 1 invariant forall(k, 0, iter(1), imp(ext("strings.Trim", tokenToSlice(input)[k], "\" ") != "", mem(res, ext("strings.Trim", tokenToSlice(input)[k], "\" "))))
+//@   loop 1 decreases len(tokenToSlice(input)) - iter(1)
+//@   ensures imp(second(result) == nil, forall_str(x, imp(mem(first(result), x), mem(requirements[kind][key], x))))
+//@   ensures imp(second(result) == nil, forall(k, 0, len(tokenToSlice(input)), imp(ext("strings.Trim", tokenToSlice(input)[k], "\" ") != "", mem(first(result), ext("strings.Trim", tokenToSlice(input)[k], "\" ")))))
+
+// toAccess on a requested mask from a log ("file-log"): the access letters cover the mask
+// (r, w, m, k, l as themselves; a, c, d as w; x as ix), any other letter is an error.
+// For the other kinds it is toValues(kind, "access", input).
+//@ func toAccess
+//@   opt prop=C16
+//@   pure
+//@   loop 1 invariant true
+//@   loop 1 decreases len(ext("strings.Split", input, "")) - iter(1)
+//@   loop 2 invariant forall(k, 0, iter(2), imp(ext("strings.Split", input, "")[k] == "r", mem(res, "r")) && imp(ext("strings.Split", input, "")[k] == "w", mem(res, "w")) && imp(ext("strings.Split", input, "")[k] == "m", mem(res, "m")) && imp(ext("strings.Split", input, "")[k] == "k", mem(res, "k")) && imp(ext("strings.Split", input, "")[k] == "l", mem(res, "l")))
+//@   loop 2 invariant forall(k, 0, iter(2), imp(ext("strings.Split", input, "")[k] == "a" || ext("strings.Split", input, "")[k] == "c" || ext("strings.Split", input, "")[k] == "d", mem(res, "w")) && imp(ext("strings.Split", input, "")[k] == "x", mem(res, "ix")))
+//@   loop 2 invariant forall(k, 0, iter(2), maskLetter(ext("strings.Split", input, "")[k]))
+//@   loop 2 decreases len(ext("strings.Split", input, "")) - iter(2)
+//@   ensures imp(kind == "file-log" && second(result) == nil, forall(k, 0, len(ext("strings.Split", input, "")), imp(ext("strings.Split", input, "")[k] == "r", mem(first(result), "r")) && imp(ext("strings.Split", input, "")[k] == "w", mem(first(result), "w")) && imp(ext("strings.Split", input, "")[k] == "m", mem(first(result), "m")) && imp(ext("strings.Split", input, "")[k] == "k", mem(first(result), "k")) && imp(ext("strings.Split", input, "")[k] == "l", mem(first(result), "l"))))
+//@   ensures imp(kind == "file-log" && second(result) == nil, forall(k, 0, len(ext("strings.Split", input, "")), imp(ext("strings.Split", input, "")[k] == "a" || ext("strings.Split", input, "")[k] == "c" || ext("strings.Split", input, "")[k] == "d", mem(first(result), "w")) && imp(ext("strings.Split", input, "")[k] == "x", mem(first(result), "ix"))))
+//@   ensures imp(kind == "file-log" && second(result) == nil, forall(k, 0, len(ext("strings.Split", input, "")), maskLetter(ext("strings.Split", input, "")[k])))
+//@   ensures imp(kind != FILE && kind != "file-log", second(result) == second(toValues(kind, "access", input)) && first(result) == first(toValues(kind, "access", input)))
+
+//@ spec maskLetter(Str) Bool
+//@ axiom maskLetter_def: forall_str(c, maskLetter(c) == (c == "r" || c == "w" || c == "m" || c == "k" || c == "l" || c == "a" || c == "c" || c == "d" || c == "x"))
+
+// The rule constructors: the rule has the right kind, carries the recorded fields and the
+// qualifier of the record. Where a constructor goes through Must(toAccess/toValues(...)) it
+// panics exactly when the recorded value is outside the requirement table (panics_when).
+//@ func newCapabilityFromLog
+//@   opt prop=C16
+//@   assigns nothing
+//@   freshresult
+//@   panics_when second(toValues(CAPABILITY, "name", log["capname"])) != nil
+//@   ensures typeIs(result, "*Capability")
+//@   ensures as(result, "*Capability").Audit == (log["apparmor"] == "AUDIT") && as(result, "*Capability").AccessType == ""
+//@   ensures as(result, "*Capability").Names == first(toValues(CAPABILITY, "name", log["capname"]))
+
+//@ func newNetworkFromLog
+//@   opt prop=C16
+//@   assigns nothing
+//@   freshresult
+//@   ensures typeIs(result, "*Network")
+//@   ensures as(result, "*Network").Audit == (log["apparmor"] == "AUDIT") && as(result, "*Network").AccessType == ""
+//@   ensures as(result, "*Network").Domain == log["family"]
+//@   ensures as(result, "*Network").Type == log["sock_type"]
+//@   ensures as(result, "*Network").Protocol == log["protocol"]
+//@   ensures as(result, "*Network").Source == log["laddr"]
+//@   ensures as(result, "*Network").Destination == log["faddr"]
+//@   ensures as(result, "*Network").Port == log["lport"]
+
+//@ func newAddressExprFromLog
+//@   opt prop=C16
+//@   assigns nothing
+//@   ensures result.Source == log["laddr"] && result.Destination == log["faddr"] && result.Port == log["lport"]
+
+//@ func newUnixFromLog
+//@   opt prop=C16
+//@   assigns nothing
+//@   freshresult
+//@   panics_when second(toAccess(UNIX, log["requested_mask"])) != nil
+//@   ensures typeIs(result, "*Unix")
+//@   ensures as(result, "*Unix").Audit == (log["apparmor"] == "AUDIT") && as(result, "*Unix").AccessType == ""
+//@   ensures as(result, "*Unix").Access == first(toAccess(UNIX, log["requested_mask"]))
+//@   ensures as(result, "*Unix").Type == log["sock_type"]
+//@   ensures as(result, "*Unix").Protocol == log["protocol"]
+//@   ensures as(result, "*Unix").Address == log["addr"]
+//@   ensures as(result, "*Unix").Label == log["label"]
+//@   ensures as(result, "*Unix").Attr == log["attr"]
+//@   ensures as(result, "*Unix").Opt == log["opt"]
+//@   ensures as(result, "*Unix").PeerLabel == log["peer"]
+//@   ensures as(result, "*Unix").PeerAddr == log["peer_addr"]
+
+//@ func newSignalFromLog
+//@   opt prop=C16
+//@   assigns nothing
+//@   freshresult
+//@   panics_when second(toAccess(SIGNAL, log["requested_mask"])) != nil
+//@   ensures typeIs(result, "*Signal")
+//@   ensures as(result, "*Signal").Audit == (log["apparmor"] == "AUDIT") && as(result, "*Signal").AccessType == ""
+//@   ensures as(result, "*Signal").Access == first(toAccess(SIGNAL, log["requested_mask"]))
+//@   ensures as(result, "*Signal").Peer == log["peer"]
+//@   ensures len(as(result, "*Signal").Set) == 1 && as(result, "*Signal").Set[0] == log["signal"]
+
+//@ func newPtraceFromLog
+//@   opt prop=C16
+//@   assigns nothing
+//@   freshresult
+//@   panics_when second(toAccess(PTRACE, log["requested_mask"])) != nil
+//@   ensures typeIs(result, "*Ptrace")
+//@   ensures as(result, "*Ptrace").Audit == (log["apparmor"] == "AUDIT") && as(result, "*Ptrace").AccessType == ""
+//@   ensures as(result, "*Ptrace").Access == first(toAccess(PTRACE, log["requested_mask"]))
+//@   ensures as(result, "*Ptrace").Peer == log["peer"]
+
+//@ func newDbusFromLog
+//@   opt prop=C16
+//@   assigns nothing
+//@   freshresult
+//@   ensures typeIs(result, "*Dbus")
+//@   ensures as(result, "*Dbus").Audit == (log["apparmor"] == "AUDIT") && as(result, "*Dbus").AccessType == ""
+//@   ensures as(result, "*Dbus").Bus == log["bus"]
+//@   ensures as(result, "*Dbus").Path == log["path"]
+//@   ensures as(result, "*Dbus").Interface == log["interface"]
+//@   ensures as(result, "*Dbus").Member == log["member"]
+//@   ensures as(result, "*Dbus").PeerLabel == log["peer_label"]
+//@   ensures len(as(result, "*Dbus").Access) == 1 && as(result, "*Dbus").Access[0] == log["mask"]
+//@   ensures imp(log["mask"] == "bind", as(result, "*Dbus").Name == log["name"] && as(result, "*Dbus").PeerName == "")
+//@   ensures imp(log["mask"] != "bind", as(result, "*Dbus").PeerName == log["name"] && as(result, "*Dbus").Name == "")
+
+//@ func newMountConditionsFromLog
+//@   opt prop=C16
+//@   assigns nothing
+//@   panics_when has(log, "flags") && second(toValues(MOUNT, "flags", log["flags"])) != nil
+//@   ensures result.FsType == log["fstype"]
+//@   ensures imp(has(log, "flags"), result.Options == first(toValues(MOUNT, "flags", log["flags"])))
+//@   ensures imp(!has(log, "flags"), len(result.Options) == 0)
+
+//@ func newMountFromLog
+//@   opt prop=C16
+//@   assigns nothing
+//@   freshresult
+//@   panics_when has(log, "flags") && second(toValues(MOUNT, "flags", log["flags"])) != nil
+//@   ensures typeIs(result, "*Mount")
+//@   ensures as(result, "*Mount").Audit == (log["apparmor"] == "AUDIT") && as(result, "*Mount").AccessType == ""
+//@   ensures as(result, "*Mount").Source == log["srcname"]
+//@   ensures as(result, "*Mount").MountPoint == log["name"]
+//@   ensures as(result, "*Mount").FsType == log["fstype"]
+//@   ensures imp(has(log, "flags"), as(result, "*Mount").Options == first(toValues(MOUNT, "flags", log["flags"])))
+
+//@ func newUmountFromLog
+//@   opt prop=C16
+//@   assigns nothing
+//@   freshresult
+//@   panics_when has(log, "flags") && second(toValues(MOUNT, "flags", log["flags"])) != nil
+//@   ensures typeIs(result, "*Umount")
+//@   ensures as(result, "*Umount").Audit == (log["apparmor"] == "AUDIT") && as(result, "*Umount").AccessType == ""
+//@   ensures as(result, "*Umount").MountPoint == log["name"]
+//@   ensures as(result, "*Umount").FsType == log["fstype"]
+//@   ensures imp(has(log, "flags"), as(result, "*Umount").Options == first(toValues(MOUNT, "flags", log["flags"])))
+
+//@ func newRemountFromLog
+//@   opt prop=C16
+//@   assigns nothing
+//@   freshresult
+//@   panics_when has(log, "flags") && second(toValues(MOUNT, "flags", log["flags"])) != nil
+//@   ensures typeIs(result, "*Remount")
+//@   ensures as(result, "*Remount").Audit == (log["apparmor"] == "AUDIT") && as(result, "*Remount").AccessType == ""
+//@   ensures as(result, "*Remount").MountPoint == log["name"]
+//@   ensures as(result, "*Remount").FsType == log["fstype"]
+//@   ensures imp(has(log, "flags"), as(result, "*Remount").Options == first(toValues(MOUNT, "flags", log["flags"])))
+
+//@ func newPivotRootFromLog
+//@   opt prop=C16
+//@   assigns nothing
+//@   freshresult
+//@   ensures typeIs(result, "*PivotRoot")
+//@   ensures as(result, "*PivotRoot").Audit == (log["apparmor"] == "AUDIT") && as(result, "*PivotRoot").AccessType == ""
+//@   ensures as(result, "*PivotRoot").OldRoot == log["srcname"]
+//@   ensures as(result, "*PivotRoot").NewRoot == log["name"]
+
+//@ func newMqueueFromLog
+//@   opt prop=C16
+//@   assigns nothing
+//@   freshresult
+//@   panics_when second(toAccess(MQUEUE, log["requested"])) != nil
+//@   ensures typeIs(result, "*Mqueue")
+//@   ensures as(result, "*Mqueue").Audit == (log["apparmor"] == "AUDIT") && as(result, "*Mqueue").AccessType == ""
+//@   ensures as(result, "*Mqueue").Access == first(toAccess(MQUEUE, log["requested"]))
+//@   ensures as(result, "*Mqueue").Label == log["label"]
+//@   ensures as(result, "*Mqueue").Name == log["name"]
+//@   ensures as(result, "*Mqueue").Type == "posix" || as(result, "*Mqueue").Type == "sysv"
+
+//@ func newIOUringFromLog
+//@   opt prop=C16
+//@   assigns nothing
+//@   freshresult
+//@   panics_when second(toAccess(IOURING, log["requested"])) != nil
+//@   ensures typeIs(result, "*IOUring")
+//@   ensures as(result, "*IOUring").Audit == (log["apparmor"] == "AUDIT") && as(result, "*IOUring").AccessType == ""
+//@   ensures as(result, "*IOUring").Access == first(toAccess(IOURING, log["requested"]))
+//@   ensures as(result, "*IOUring").Label == log["label"]
+
+//@ func newUsernsFromLog
+//@   opt prop=C16
+//@   assigns nothing
+//@   freshresult
+//@   ensures typeIs(result, "*Userns")
+//@   ensures as(result, "*Userns").Audit == (log["apparmor"] == "AUDIT") && as(result, "*Userns").AccessType == ""
+//@   ensures as(result, "*Userns").Create == true
+
+//@ func newRlimitFromLog
+//@   opt prop=C16
+//@   assigns nothing
+//@   freshresult
+//@   ensures typeIs(result, "*Rlimit")
+//@   ensures as(result, "*Rlimit").Key == log["rlimit"]
+//@   ensures as(result, "*Rlimit").Op == "<="
+//@   ensures as(result, "*Rlimit").Value == log["value"]
+
+//@ func newChangeProfileFromLog
+//@   opt prop=C16
+//@   assigns nothing
+//@   freshresult
+//@   ensures typeIs(result, "*ChangeProfile")
+//@   ensures as(result, "*ChangeProfile").Audit == (log["apparmor"] == "AUDIT") && as(result, "*ChangeProfile").AccessType == ""
+//@   ensures as(result, "*ChangeProfile").ExecMode == log["mode"]
+//@   ensures as(result, "*ChangeProfile").Exec == log["exec"]
+//@   ensures as(result, "*ChangeProfile").ProfileName == log["target"]
+
+//@ func newLinkFromLog
+//@   opt prop=C16
+//@   assigns nothing
+//@   freshresult
+//@   ensures typeIs(result, "*Link")
+//@   ensures as(result, "*Link").Audit == (log["apparmor"] == "AUDIT") && as(result, "*Link").AccessType == ""
+//@   ensures as(result, "*Link").Path == log["name"]
+//@   ensures as(result, "*Link").Target == log["target"]
+//@   ensures imp(as(result, "*Link").Owner, has(log, "fsuid") && has(log, "ouid") && log["fsuid"] == log["ouid"])
+
+//@ func newFileFromLog
+//@   opt prop=C16
+//@   assigns nothing
+//@   freshresult
+//@   panics_when second(toAccess("file-log", log["requested_mask"])) != nil
+//@   ensures typeIs(result, "*File") || typeIs(result, "*Link")
+//@   ensures imp(typeIs(result, "*Link"), len(first(toAccess("file-log", log["requested_mask"]))) == 1 && first(toAccess("file-log", log["requested_mask"]))[0] == "l")
+//@   ensures imp(typeIs(result, "*Link"), as(result, "*Link").Path == log["name"] && as(result, "*Link").Target == log["target"] && imp(as(result, "*Link").Owner, has(log, "fsuid") && has(log, "ouid") && log["fsuid"] == log["ouid"]))
+//@   ensures imp(typeIs(result, "*Link"), as(result, "*Link").Audit == (log["apparmor"] == "AUDIT") && as(result, "*Link").AccessType == "")
+//@   ensures imp(typeIs(result, "*File"), as(result, "*File").Path == log["name"] && as(result, "*File").Target == log["target"] && imp(as(result, "*File").Owner, has(log, "fsuid") && has(log, "ouid") && log["fsuid"] == log["ouid"]))
+//@   ensures imp(typeIs(result, "*File"), as(result, "*File").Access == first(toAccess("file-log", log["requested_mask"])))
+//@   ensures imp(typeIs(result, "*File"), as(result, "*File").Audit == (log["apparmor"] == "AUDIT") && as(result, "*File").AccessType == "")
+
+// AddRule: existing rules are kept; a record of a known class gets exactly one rule of the
+// right kind, appended last (after a userns rule for "namespace creation restricted"
+// records), and that rule carries the recorded fields (through the constructor contracts).
+// class, family and operation are looked up in this order; the class table below restates
+// the property statement, not the code. It panics only when a recorded value is outside
+// the requirement tables or a mount record has an unknown operation (panics_when).
+//@ func (*Profile).AddRule
+//@   opt prop=C16
+//@   assigns p.Rules, p.Flags
+//@   loop 1 unroll 3
+//@   panics_when second(toAccess(UNIX, log["requested_mask"])) != nil || second(toAccess(SIGNAL, log["requested_mask"])) != nil || second(toAccess(PTRACE, log["requested_mask"])) != nil || second(toAccess(MQUEUE, log["requested"])) != nil || second(toAccess(IOURING, log["requested"])) != nil || second(toAccess("file-log", log["requested_mask"])) != nil || second(toValues(CAPABILITY, "name", log["capname"])) != nil || (has(log, "flags") && second(toValues(MOUNT, "flags", log["flags"])) != nil) || (log["operation"] != "mount" && log["operation"] != "umount" && log["operation"] != "remount" && log["operation"] != "pivotroot" && (log["class"] == "mount" || log["family"] == "mount" || log["operation"] == "mount"))
+//@   ensures len(p.Rules) >= len(old(p.Rules))
+//@   ensures forall(k, 0, len(old(p.Rules)), p.Rules[k] == old(p.Rules)[k])
+//@   ensures imp(log["class"] == "cap", len(p.Rules) == len(old(p.Rules)) + 1 + ite((log["error"] == "-13" && ext("strings.Contains", log["info"], "namespace creation restricted")), 1, 0) && typeIs(last(p.Rules), "*Capability"))
+//@   ensures imp(log["class"] == "cap", as(last(p.Rules), "*Capability").Names == first(toValues(CAPABILITY, "name", log["capname"])))
+//@   ensures imp(log["class"] == "net" && log["family"] == "unix", len(p.Rules) == len(old(p.Rules)) + 1 + ite((log["error"] == "-13" && ext("strings.Contains", log["info"], "namespace creation restricted")), 1, 0) && typeIs(last(p.Rules), "*Unix"))
+//@   ensures imp(log["class"] == "net" && log["family"] == "unix", as(last(p.Rules), "*Unix").Type == log["sock_type"])
+//@   ensures imp(log["class"] == "net" && log["family"] == "unix", as(last(p.Rules), "*Unix").Address == log["addr"])
+//@   ensures imp(log["class"] == "net" && log["family"] == "unix", as(last(p.Rules), "*Unix").PeerLabel == log["peer"])
+//@   ensures imp(log["class"] == "net" && log["family"] != "unix", len(p.Rules) == len(old(p.Rules)) + 1 + ite((log["error"] == "-13" && ext("strings.Contains", log["info"], "namespace creation restricted")), 1, 0) && typeIs(last(p.Rules), "*Network"))
+//@   ensures imp(log["class"] == "net" && log["family"] != "unix", as(last(p.Rules), "*Network").Domain == log["family"])
+//@   ensures imp(log["class"] == "net" && log["family"] != "unix", as(last(p.Rules), "*Network").Type == log["sock_type"])
+//@   ensures imp(log["class"] == "net" && log["family"] != "unix", as(last(p.Rules), "*Network").Protocol == log["protocol"])
+//@   ensures imp(log["class"] == "unix", len(p.Rules) == len(old(p.Rules)) + 1 + ite((log["error"] == "-13" && ext("strings.Contains", log["info"], "namespace creation restricted")), 1, 0) && typeIs(last(p.Rules), "*Unix"))
+//@   ensures imp(log["class"] == "unix", as(last(p.Rules), "*Unix").Type == log["sock_type"])
+//@   ensures imp(log["class"] == "unix", as(last(p.Rules), "*Unix").Address == log["addr"])
+//@   ensures imp(log["class"] == "signal", len(p.Rules) == len(old(p.Rules)) + 1 + ite((log["error"] == "-13" && ext("strings.Contains", log["info"], "namespace creation restricted")), 1, 0) && typeIs(last(p.Rules), "*Signal"))
+//@   ensures imp(log["class"] == "signal", as(last(p.Rules), "*Signal").Peer == log["peer"])
+//@   ensures imp(log["class"] == "signal", as(last(p.Rules), "*Signal").Access == first(toAccess(SIGNAL, log["requested_mask"])))
+//@   ensures imp(log["class"] == "ptrace", len(p.Rules) == len(old(p.Rules)) + 1 + ite((log["error"] == "-13" && ext("strings.Contains", log["info"], "namespace creation restricted")), 1, 0) && typeIs(last(p.Rules), "*Ptrace"))
+//@   ensures imp(log["class"] == "ptrace", as(last(p.Rules), "*Ptrace").Peer == log["peer"])
+//@   ensures imp(log["class"] == "ptrace", as(last(p.Rules), "*Ptrace").Access == first(toAccess(PTRACE, log["requested_mask"])))
+//@   ensures imp(log["class"] == "dbus", len(p.Rules) == len(old(p.Rules)) + 1 + ite((log["error"] == "-13" && ext("strings.Contains", log["info"], "namespace creation restricted")), 1, 0) && typeIs(last(p.Rules), "*Dbus"))
+//@   ensures imp(log["class"] == "dbus", as(last(p.Rules), "*Dbus").Bus == log["bus"])
+//@   ensures imp(log["class"] == "dbus", as(last(p.Rules), "*Dbus").Path == log["path"])
+//@   ensures imp(log["class"] == "dbus", as(last(p.Rules), "*Dbus").Interface == log["interface"])
+//@   ensures imp(log["class"] == "dbus", as(last(p.Rules), "*Dbus").Member == log["member"])
+//@   ensures imp(log["class"] == "io_uring", len(p.Rules) == len(old(p.Rules)) + 1 + ite((log["error"] == "-13" && ext("strings.Contains", log["info"], "namespace creation restricted")), 1, 0) && typeIs(last(p.Rules), "*IOUring"))
+//@   ensures imp(log["class"] == "io_uring", as(last(p.Rules), "*IOUring").Label == log["label"])
+//@   ensures imp(log["class"] == "posix_mqueue", len(p.Rules) == len(old(p.Rules)) + 1 + ite((log["error"] == "-13" && ext("strings.Contains", log["info"], "namespace creation restricted")), 1, 0) && typeIs(last(p.Rules), "*Mqueue"))
+//@   ensures imp(log["class"] == "posix_mqueue", as(last(p.Rules), "*Mqueue").Name == log["name"])
+//@   ensures imp(log["class"] == "sysv_mqueue", len(p.Rules) == len(old(p.Rules)) + 1 + ite((log["error"] == "-13" && ext("strings.Contains", log["info"], "namespace creation restricted")), 1, 0) && typeIs(last(p.Rules), "*Mqueue"))
+//@   ensures imp(log["class"] == "sysv_mqueue", as(last(p.Rules), "*Mqueue").Name == log["name"])
+//@   ensures imp(log["class"] == "namespace", len(p.Rules) == len(old(p.Rules)) + 1 + ite((log["error"] == "-13" && ext("strings.Contains", log["info"], "namespace creation restricted")), 1, 0) && typeIs(last(p.Rules), "*Userns"))
+//@   ensures imp(log["class"] == "rlimits", len(p.Rules) == len(old(p.Rules)) + 1 + ite((log["error"] == "-13" && ext("strings.Contains", log["info"], "namespace creation restricted")), 1, 0) && typeIs(last(p.Rules), "*Rlimit"))
+//@   ensures imp(log["class"] == "rlimits", as(last(p.Rules), "*Rlimit").Key == log["rlimit"])
+//@   ensures imp(log["class"] == "rlimits", as(last(p.Rules), "*Rlimit").Value == log["value"])
+//@   ensures imp(log["class"] == "mount" && ext("strings.Contains", log["flags"], "remount"), len(p.Rules) == len(old(p.Rules)) + 1 + ite((log["error"] == "-13" && ext("strings.Contains", log["info"], "namespace creation restricted")), 1, 0) && typeIs(last(p.Rules), "*Remount"))
+//@   ensures imp(log["class"] == "mount" && ext("strings.Contains", log["flags"], "remount"), as(last(p.Rules), "*Remount").MountPoint == log["name"])
+//@   ensures imp(log["class"] == "mount" && !ext("strings.Contains", log["flags"], "remount") && log["operation"] == "mount", len(p.Rules) == len(old(p.Rules)) + 1 + ite((log["error"] == "-13" && ext("strings.Contains", log["info"], "namespace creation restricted")), 1, 0) && typeIs(last(p.Rules), "*Mount"))
+//@   ensures imp(log["class"] == "mount" && !ext("strings.Contains", log["flags"], "remount") && log["operation"] == "mount", as(last(p.Rules), "*Mount").Source == log["srcname"])
+//@   ensures imp(log["class"] == "mount" && !ext("strings.Contains", log["flags"], "remount") && log["operation"] == "mount", as(last(p.Rules), "*Mount").MountPoint == log["name"])
+//@   ensures imp(log["class"] == "mount" && !ext("strings.Contains", log["flags"], "remount") && log["operation"] == "mount", as(last(p.Rules), "*Mount").FsType == log["fstype"])
+//@   ensures imp(log["class"] == "mount" && !ext("strings.Contains", log["flags"], "remount") && log["operation"] == "umount", len(p.Rules) == len(old(p.Rules)) + 1 + ite((log["error"] == "-13" && ext("strings.Contains", log["info"], "namespace creation restricted")), 1, 0) && typeIs(last(p.Rules), "*Umount"))
+//@   ensures imp(log["class"] == "mount" && !ext("strings.Contains", log["flags"], "remount") && log["operation"] == "umount", as(last(p.Rules), "*Umount").MountPoint == log["name"])
+//@   ensures imp(log["class"] == "mount" && !ext("strings.Contains", log["flags"], "remount") && log["operation"] == "pivotroot", len(p.Rules) == len(old(p.Rules)) + 1 + ite((log["error"] == "-13" && ext("strings.Contains", log["info"], "namespace creation restricted")), 1, 0) && typeIs(last(p.Rules), "*PivotRoot"))
+//@   ensures imp(log["class"] == "mount" && !ext("strings.Contains", log["flags"], "remount") && log["operation"] == "pivotroot", as(last(p.Rules), "*PivotRoot").OldRoot == log["srcname"])
+//@   ensures imp(log["class"] == "mount" && !ext("strings.Contains", log["flags"], "remount") && log["operation"] == "pivotroot", as(last(p.Rules), "*PivotRoot").NewRoot == log["name"])
+//@   ensures imp(log["class"] == "file" && log["operation"] == "change_onexec", len(p.Rules) == len(old(p.Rules)) + 1 + ite((log["error"] == "-13" && ext("strings.Contains", log["info"], "namespace creation restricted")), 1, 0) && typeIs(last(p.Rules), "*ChangeProfile"))
+//@   ensures imp(log["class"] == "file" && log["operation"] == "change_onexec", as(last(p.Rules), "*ChangeProfile").Exec == log["exec"])
+//@   ensures imp(log["class"] == "file" && log["operation"] == "change_onexec", as(last(p.Rules), "*ChangeProfile").ProfileName == log["target"])
+//@   ensures imp(log["class"] == "file" && !(log["operation"] == "change_onexec"), len(p.Rules) == len(old(p.Rules)) + 1 + ite((log["error"] == "-13" && ext("strings.Contains", log["info"], "namespace creation restricted")), 1, 0) && (typeIs(last(p.Rules), "*File") || typeIs(last(p.Rules), "*Link")))
+//@   ensures imp(log["class"] == "file" && !(log["operation"] == "change_onexec") && typeIs(last(p.Rules), "*File"), as(last(p.Rules), "*File").Path == log["name"] && as(last(p.Rules), "*File").Access == first(toAccess("file-log", log["requested_mask"])))
+//@   ensures imp(log["class"] == "file" && !(log["operation"] == "change_onexec") && typeIs(last(p.Rules), "*Link"), as(last(p.Rules), "*Link").Path == log["name"] && as(last(p.Rules), "*Link").Target == log["target"])
+//@   ensures imp(log["class"] == "" && log["family"] == "" && log["operation"] == "capable", len(p.Rules) == len(old(p.Rules)) + 1 + ite((log["error"] == "-13" && ext("strings.Contains", log["info"], "namespace creation restricted")), 1, 0) && typeIs(last(p.Rules), "*Capability"))
+//@   ensures imp(log["class"] == "" && log["family"] == "" && log["operation"] == "open", len(p.Rules) == len(old(p.Rules)) + 1 + ite((log["error"] == "-13" && ext("strings.Contains", log["info"], "namespace creation restricted")), 1, 0) && (typeIs(last(p.Rules), "*File") || typeIs(last(p.Rules), "*Link")))
+//@   ensures imp(log["class"] == "" && log["family"] == "" && log["operation"] == "exec", len(p.Rules) == len(old(p.Rules)) + 1 + ite((log["error"] == "-13" && ext("strings.Contains", log["info"], "namespace creation restricted")), 1, 0) && (typeIs(last(p.Rules), "*File") || typeIs(last(p.Rules), "*Link")))
+//@   ensures imp(log["class"] == "" && log["family"] == "" && log["operation"] == "mkdir", len(p.Rules) == len(old(p.Rules)) + 1 + ite((log["error"] == "-13" && ext("strings.Contains", log["info"], "namespace creation restricted")), 1, 0) && (typeIs(last(p.Rules), "*File") || typeIs(last(p.Rules), "*Link")))
+//@   ensures imp(log["class"] == "" && log["family"] == "" && log["operation"] == "unlink", len(p.Rules) == len(old(p.Rules)) + 1 + ite((log["error"] == "-13" && ext("strings.Contains", log["info"], "namespace creation restricted")), 1, 0) && (typeIs(last(p.Rules), "*File") || typeIs(last(p.Rules), "*Link")))
+//@   ensures imp(log["class"] == "" && log["family"] == "" && log["operation"] == "rename_src", len(p.Rules) == len(old(p.Rules)) + 1 + ite((log["error"] == "-13" && ext("strings.Contains", log["info"], "namespace creation restricted")), 1, 0) && (typeIs(last(p.Rules), "*File") || typeIs(last(p.Rules), "*Link")))
+//@   ensures imp(log["class"] == "" && log["family"] == "" && log["operation"] == "rename_dest", len(p.Rules) == len(old(p.Rules)) + 1 + ite((log["error"] == "-13" && ext("strings.Contains", log["info"], "namespace creation restricted")), 1, 0) && (typeIs(last(p.Rules), "*File") || typeIs(last(p.Rules), "*Link")))
+//@   ensures imp(log["class"] == "" && log["family"] == "" && log["operation"] == "chmod", len(p.Rules) == len(old(p.Rules)) + 1 + ite((log["error"] == "-13" && ext("strings.Contains", log["info"], "namespace creation restricted")), 1, 0) && (typeIs(last(p.Rules), "*File") || typeIs(last(p.Rules), "*Link")))
+//@   ensures imp(log["class"] == "" && log["family"] == "" && log["operation"] == "getattr", len(p.Rules) == len(old(p.Rules)) + 1 + ite((log["error"] == "-13" && ext("strings.Contains", log["info"], "namespace creation restricted")), 1, 0) && (typeIs(last(p.Rules), "*File") || typeIs(last(p.Rules), "*Link")))
+//@   ensures imp(log["class"] == "" && log["family"] == "" && log["operation"] == "truncate", len(p.Rules) == len(old(p.Rules)) + 1 + ite((log["error"] == "-13" && ext("strings.Contains", log["info"], "namespace creation restricted")), 1, 0) && (typeIs(last(p.Rules), "*File") || typeIs(last(p.Rules), "*Link")))
+//@   ensures imp(log["class"] == "" && log["family"] == "" && log["operation"] == "mknod", len(p.Rules) == len(old(p.Rules)) + 1 + ite((log["error"] == "-13" && ext("strings.Contains", log["info"], "namespace creation restricted")), 1, 0) && (typeIs(last(p.Rules), "*File") || typeIs(last(p.Rules), "*Link")))
+//@   ensures imp(log["class"] == "" && log["family"] == "" && log["operation"] == "rmdir", len(p.Rules) == len(old(p.Rules)) + 1 + ite((log["error"] == "-13" && ext("strings.Contains", log["info"], "namespace creation restricted")), 1, 0) && (typeIs(last(p.Rules), "*File") || typeIs(last(p.Rules), "*Link")))
+//@   ensures imp(log["class"] == "" && log["family"] == "" && log["operation"] == "link", len(p.Rules) == len(old(p.Rules)) + 1 + ite((log["error"] == "-13" && ext("strings.Contains", log["info"], "namespace creation restricted")), 1, 0) && (typeIs(last(p.Rules), "*File") || typeIs(last(p.Rules), "*Link")))
+//@   ensures imp(log["class"] == "" && (log["family"] == "inet" || log["family"] == "inet6" || log["family"] == "netlink" || log["family"] == "packet") && (log["operation"] == "create" || log["operation"] == "connect" || log["operation"] == "bind" || log["operation"] == "listen" || log["operation"] == "accept" || log["operation"] == "sendmsg" || log["operation"] == "recvmsg" || log["operation"] == "getsockopt" || log["operation"] == "setsockopt") && !hasPrefix(log["operation"], "file_") && !ext("strings.Contains", log["operation"], "dbus"), len(p.Rules) == len(old(p.Rules)) + 1 + ite((log["error"] == "-13" && ext("strings.Contains", log["info"], "namespace creation restricted")), 1, 0) && typeIs(last(p.Rules), "*Network"))
+//@   ensures imp(log["class"] == "" && (log["family"] == "inet" || log["family"] == "inet6" || log["family"] == "netlink" || log["family"] == "packet") && (log["operation"] == "create" || log["operation"] == "connect" || log["operation"] == "bind" || log["operation"] == "listen" || log["operation"] == "accept" || log["operation"] == "sendmsg" || log["operation"] == "recvmsg" || log["operation"] == "getsockopt" || log["operation"] == "setsockopt") && !hasPrefix(log["operation"], "file_") && !ext("strings.Contains", log["operation"], "dbus"), as(last(p.Rules), "*Network").Domain == log["family"] && as(last(p.Rules), "*Network").Type == log["sock_type"] && as(last(p.Rules), "*Network").Protocol == log["protocol"])
+
